@@ -172,8 +172,10 @@ class Path:
         if self._feasible is not None:
             return self._feasible
         rel = {}
-        ok = True
+        ok = not any(it.kind == 'infeasible' for it in self.items)
         for c in self.conds():
+            if not ok:
+                break
             cmp_ = c.cmp()
             if cmp_ is None:
                 continue
